@@ -129,7 +129,7 @@ func init() {
 			"out-of-range system-common arguments only need a well-formed message (statement)",
 			"loopback is observed through drivers/testdrv + midi.ListenTo with all listen options enabled",
 		},
-		Require: []string{"ctor_points", "loopback_deliveries", "accessor_calls", "out_of_range_points", "concurrent_ctor_points", "nil_pattern_calls", "conversations_with_replies_to_replies", "loopback_repeated_deliveries"},
+		Require: []string{"ctor_points", "loopback_deliveries", "accessor_calls", "out_of_range_points", "concurrent_ctor_points", "nil_pattern_calls", "conversations_with_replies_to_replies", "loopback_repeated_deliveries", "several_loopback_sessions"},
 		Run:     runC07,
 	})
 }
@@ -627,6 +627,65 @@ func runC07(c *mon.Ctx) {
 			c.Count("conversations_with_replies_to_replies", 1)
 		}
 		c.DistinctBytes([]byte(fmt.Sprint("conv", children, nroots)))
+	})
+
+	// several loopback drivers alive at once (equally and differently named, as two instances created by one
+	// helper are): a message sent through one of them arrives there, with its value, whatever happens on the others
+	c.Each("several-loopbacks", c.N(40, 2000), func(i int64, r *mon.Rand) {
+		n := r.Range(2, 4)
+		sameName := i%2 == 0
+		type lb struct {
+			got [][]byte
+			snd func(midi.Message) error
+		}
+		lbs := make([]*lb, n)
+		in := map[string]any{"loopback_drivers": n, "all_named_alike": sameName}
+		for k := range lbs {
+			name := "loop"
+			if !sameName {
+				name = fmt.Sprintf("loop-%d", k)
+			}
+			d := testdrv.New(name)
+			ins, _ := d.Ins()
+			outs, _ := d.Outs()
+			l := &lb{}
+			lbs[k] = l
+			if _, err := midi.ListenTo(ins[0], func(m midi.Message, ts int32) { l.got = append(l.got, append([]byte(nil), m...)) }); err != nil {
+				c.Violation("several-loopbacks", "ListenTo fails: "+err.Error(), in, nil, nil)
+				return
+			}
+			snd, err := midi.SendTo(outs[0])
+			if err != nil {
+				c.Violation("several-loopbacks", "SendTo fails: "+err.Error(), in, nil, nil)
+				return
+			}
+			l.snd = snd
+		}
+		want := make([][][]byte, n)
+		for j := 0; j < 40; j++ {
+			k := r.Intn(n)
+			m := midi.NoteOn(uint8(k), uint8(j), uint8(1+r.Intn(127)))
+			if r.P(1, 3) {
+				m = midi.ControlChange(uint8(k), uint8(j), uint8(r.Intn(128)))
+			}
+			if e := lbs[k].snd(m); e != nil {
+				c.Violation("several-loopbacks", "Send fails: "+e.Error(), in, nil, nil)
+				return
+			}
+			want[k] = append(want[k], append([]byte(nil), m...))
+		}
+		c.Count("several_loopback_sessions", 1)
+		for k := range lbs {
+			ok := len(lbs[k].got) == len(want[k])
+			for j := 0; ok && j < len(want[k]); j++ {
+				ok = bytes.Equal(lbs[k].got[j], want[k][j])
+			}
+			if !ok {
+				c.Violation("several-loopbacks", fmt.Sprintf("loopback driver %d of %d (all named alike: %v): %d messages sent through its out port, %d arrived at its listener", k, n, sameName, len(want[k]), len(lbs[k].got)), in, mon.HexList(want[k]), mon.HexList(lbs[k].got))
+				return
+			}
+		}
+		c.DistinctBytes([]byte(fmt.Sprint("several-loopbacks", i)))
 	})
 
 	c.Each("tune-realtime", 1, func(_ int64, _ *mon.Rand) {
